@@ -96,11 +96,16 @@ class Native:
             got = [json.loads(l) for l in lines]
             self.runs += len(got)
             out.extend(got)
-            if len(got) == 0:
-                raise RuntimeError('replayer produced no output: ' + r.stderr[-500:])
             todo = todo[len(got):]
-            if todo and r.returncode not in (3,):
-                raise RuntimeError(f'replayer stopped early (status {r.returncode}): {r.stderr[-500:]}')
+            if todo and (len(got) == 0 or r.returncode not in (0, 3)):
+                # the process died inside the next scenario (stack overflow, abort, allocation failure): that is an
+                # abnormal end of that scenario, not a failure of the harness; go on with the ones after it
+                if r.returncode in (0, 3) and len(got) == 0:
+                    raise RuntimeError('replayer produced no output: ' + r.stderr[-500:])
+                tail = ' '.join(r.stderr.strip().split('\n')[-2:])[-300:]
+                out.append([{'panic': f'native process aborted (status {r.returncode}): {tail}'}])
+                self.runs += 1
+                todo = todo[1:]
         return out
 
 
